@@ -14,7 +14,15 @@ use std::io::Write;
 use std::path::{Path, PathBuf};
 use std::time::Instant;
 
-pub const VERIF: &str = "/verif";
+/// root of the verification tree: the directory above the harness crate (overridable with
+/// VERIF_DIR, so that a snapshot of /verif can run on its own)
+pub fn verif_dir() -> String {
+    if let Ok(d) = std::env::var("VERIF_DIR") {
+        return d;
+    }
+    let compiled = concat!(env!("CARGO_MANIFEST_DIR"), "/..");
+    std::fs::canonicalize(compiled).map(|p| p.to_string_lossy().to_string()).unwrap_or_else(|_| "/verif".into())
+}
 pub const LOAD_BOUND: usize = 4 * 9 + 48;
 pub const SOLO_BOUND: usize = 2500;
 
@@ -57,7 +65,7 @@ pub fn load_findings() -> Vec<Finding> {
         // (used once, to obtain a shrunk replay of an open finding)
         return Vec::new();
     }
-    let p = format!("{}/known_findings.json", VERIF);
+    let p = format!("{}/known_findings.json", verif_dir());
     match std::fs::read_to_string(&p) {
         Ok(s) => serde_json::from_str::<Value>(&s).ok().and_then(|v| v.get("findings").cloned()).and_then(|f| serde_json::from_value(f).ok()).unwrap_or_default(),
         Err(_) => Vec::new(),
@@ -175,7 +183,7 @@ where
                 }
                 let cj = serde_json::to_value(&best.0).unwrap();
                 let rp = Replay2 { property: prop.into(), oracle: "E2".into(), msg: best.1.clone(), engine: part.into(), tree_rev: tree_rev(), case: cj.clone() };
-                let dir = format!("{}/work/replays", VERIF);
+                let dir = format!("{}/work/replays", verif_dir());
                 let _ = std::fs::create_dir_all(&dir);
                 let path = format!("{}/{}-{:016x}.json", dir, part, hash_json(&cj));
                 std::fs::write(&path, serde_json::to_string_pretty(&rp).unwrap()).unwrap();
@@ -541,7 +549,7 @@ pub fn worker(id: &str, widx: u64, ncases: usize, seed: u64, outdir: &str) -> i3
             let f2 = o2.fail.clone().unwrap();
             let prop = reported_property(&check, &f2);
             let rp = Replay { property: prop.clone(), oracle: f2.oracle.clone(), msg: f2.msg.clone(), engine: "E1".into(), tree_rev: rev.clone(), case: c2 };
-            let dir = format!("{}/work/replays", VERIF);
+            let dir = format!("{}/work/replays", verif_dir());
             let _ = std::fs::create_dir_all(&dir);
             let path = format!("{}/{}-{}-{:016x}.json", dir, id, f2.oracle, rp.case.hash64());
             std::fs::write(&path, serde_json::to_string_pretty(&rp).unwrap()).unwrap();
@@ -585,7 +593,7 @@ pub fn write_evidence(id: &str, tier: &str, seed: u64, level: &str, coverage: Va
         "violations": violations,
         "tree_rev": tree_rev(),
     });
-    let dir = format!("{}/evidence", VERIF);
+    let dir = format!("{}/evidence", verif_dir());
     let _ = std::fs::create_dir_all(&dir);
     std::fs::write(format!("{}/{}.json", dir, id), serde_json::to_string_pretty(&ev).unwrap()).unwrap();
 }
@@ -614,7 +622,7 @@ pub fn e1_assumptions() -> Vec<String> {
 
 fn replay_dir(id: &str) -> Vec<PathBuf> {
     let mut v = Vec::new();
-    if let Ok(rd) = std::fs::read_dir(format!("{}/replays", VERIF)) {
+    if let Ok(rd) = std::fs::read_dir(format!("{}/replays", verif_dir())) {
         for e in rd.flatten() {
             let n = e.file_name().to_string_lossy().to_string();
             if n.starts_with(id) && n.ends_with(".json") {
@@ -657,7 +665,7 @@ pub struct PartOut {
 /// spawn the workers of one part, merge their results, report violations / known findings
 pub fn run_part(id: &str, part: &Part, seed: u64, deciding_total: bool) -> PartOut {
     let findings = load_findings();
-    let outdir = format!("{}/work/run-{}-{}", VERIF, part.name, std::process::id());
+    let outdir = format!("{}/work/run-{}-{}", verif_dir(), part.name, std::process::id());
     let _ = std::fs::remove_dir_all(&outdir);
     std::fs::create_dir_all(&outdir).unwrap();
     let exe = std::env::current_exe().unwrap();
@@ -740,7 +748,7 @@ pub fn run_part(id: &str, part: &Part, seed: u64, deciding_total: bool) -> PartO
         // the worker died (abort, signal): its last logged case is the replay; confirm in a child
         let err = std::fs::read_to_string(format!("{}/w{}.err", outdir, w)).unwrap_or_default();
         let tail: String = err.lines().rev().take(6).collect::<Vec<_>>().into_iter().rev().collect::<Vec<_>>().join(" | ");
-        let dir = format!("{}/work/replays", VERIF);
+        let dir = format!("{}/work/replays", verif_dir());
         let _ = std::fs::create_dir_all(&dir);
         let body = std::fs::read_to_string(last).unwrap_or_default();
         let path = format!("{}/{}-death-{:016x}.json", dir, part.name, hash_json(&Value::String(body.clone())));
@@ -794,27 +802,27 @@ pub struct FuzzOut {
 pub fn fuzz_campaign(target: &str, runs_per_job: usize, jobs: usize, seed: u64) -> FuzzOut {
     let mut out = FuzzOut { jobs, ..Default::default() };
     let b = std::process::Command::new("cargo")
-        .args(["+nightly", "fuzz", "build", "--fuzz-dir", &format!("{}/fuzz", VERIF), target])
+        .args(["+nightly", "fuzz", "build", "--fuzz-dir", &format!("{}/fuzz", verif_dir()), target])
         .env("RUSTFLAGS", "--cfg arc_swap_verif")
         .env("CARGO_NET_OFFLINE", "true")
-        .current_dir(VERIF)
+        .current_dir(verif_dir())
         .output();
     let ok = matches!(&b, Ok(o) if o.status.success());
     if !ok {
         out.note = format!("cargo fuzz build failed: {}", b.map(|o| String::from_utf8_lossy(&o.stderr).lines().rev().take(3).collect::<Vec<_>>().join(" | ")).unwrap_or_else(|e| e.to_string()));
         return out;
     }
-    let bin = format!("{}/fuzz/target/x86_64-unknown-linux-gnu/release/{}", VERIF, target);
+    let bin = format!("{}/fuzz/target/x86_64-unknown-linux-gnu/release/{}", verif_dir(), target);
     if !Path::new(&bin).exists() {
         out.note = "fuzz binary not found after build".into();
         return out;
     }
     out.available = true;
-    let art = format!("{}/work/artifacts", VERIF);
+    let art = format!("{}/work/artifacts", verif_dir());
     let _ = std::fs::create_dir_all(&art);
     let mut children = Vec::new();
     for j in 0..jobs {
-        let corpus = format!("{}/work/corpus/{}/j{}", VERIF, target, j);
+        let corpus = format!("{}/work/corpus/{}/j{}", verif_dir(), target, j);
         let _ = std::fs::remove_dir_all(&corpus);
         std::fs::create_dir_all(&corpus).unwrap();
         // seed corpus: the empty input and a few pseudo-random byte strings (libFuzzer ramps the
@@ -831,7 +839,7 @@ pub fn fuzz_campaign(target: &str, runs_per_job: usize, jobs: usize, seed: u64) 
             std::fs::write(format!("{}/seed{}", corpus, k), bytes).unwrap();
         }
         std::fs::write(format!("{}/empty", corpus), b"").unwrap();
-        let log = std::fs::File::create(format!("{}/work/fuzz-{}-j{}.log", VERIF, target, j)).unwrap();
+        let log = std::fs::File::create(format!("{}/work/fuzz-{}-j{}.log", verif_dir(), target, j)).unwrap();
         let log2 = log.try_clone().unwrap();
         let ch = std::process::Command::new(&bin)
             .arg(&corpus)
@@ -846,7 +854,7 @@ pub fn fuzz_campaign(target: &str, runs_per_job: usize, jobs: usize, seed: u64) 
     }
     for (j, mut c, corpus) in children {
         let st = c.wait().ok();
-        let text = std::fs::read_to_string(format!("{}/work/fuzz-{}-j{}.log", VERIF, target, j)).unwrap_or_default();
+        let text = std::fs::read_to_string(format!("{}/work/fuzz-{}-j{}.log", verif_dir(), target, j)).unwrap_or_default();
         for l in text.lines() {
             if let Some(r) = l.strip_prefix("stat::number_of_executed_units:") {
                 out.runs += r.trim().parse::<usize>().unwrap_or(0);
